@@ -573,8 +573,8 @@ class BaseComponent(object, metaclass=abc.ABCMeta):
                 elif to_time == -1:
                     to_time = time
                     if (
-                        state == BaseComponentState.NONE
-                        or state == BaseComponentState.FINISHED
+                        state != BaseComponentState.READY
+                        and state != BaseComponentState.WORKING
                     ):
                         if previous_state == BaseComponentState.WORKING:
                             working_time_list.append(
